@@ -13,10 +13,7 @@ import (
 
 // cursorEntryField: v is field `field` of it.messageIndexes[it.curMessageIndex] (element copied or addressed).
 func cursorEntryField(v ssa.Value, field string) bool {
-	isCursorElemAddr := func(a ssa.Value) bool {
-		ia, ok := a.(*ssa.IndexAddr)
-		return ok && loadOfField(ia.X, "indexedMessageIterator", "messageIndexes") && loadOfField(ia.Index, "indexedMessageIterator", "curMessageIndex")
-	}
+	isCursorElemAddr := curRoles.cursorElemAddr
 	var isCursorElem func(s ssa.Value, depth int) bool
 	isCursorElem = func(s ssa.Value, depth int) bool {
 		if depth > 4 {
@@ -122,7 +119,10 @@ func reachesThroughArith(v ssa.Value, pred func(ssa.Value) bool, seen map[ssa.Va
 	return false
 }
 
+var curRoles = &queueRoles{qType: "indexedMessageIterator", qField: "messageIndexes", cType: "indexedMessageIterator", cField: "curMessageIndex"}
+
 func checkCursorDiscipline(p *Program, r *Result, rule string) {
+	curRoles = p.roles()
 	ni := p.lookupFunc(pkgMcap, "indexedMessageIterator.NextInto")
 	if ni == nil {
 		r.undecided(rule, "mcap.indexedMessageIterator.NextInto", "anchor", "", "not found")
